@@ -441,6 +441,7 @@ class CacheSim(object):
         self.epoch_decisions = []
         self.eacces_on_unlink = False
         self.learnt_entries = {}       # source key -> cache paths the code used for it, oldest first
+        self.stamp_seen = {}           # process slot -> scanner version that wrote the stamp it last opened
         self.pending_mid = []
         self.version_log = {}          # key -> [(seq from which it is current, version), ...]
         self.world.env_hook = self._fire_mid
@@ -466,6 +467,10 @@ class CacheSim(object):
                 if prev.state != 'done':
                     self.midop_switches += 1
             self._last_slot = slot
+        if slot >= 0 and call == 'open' and res == 'ro' and path and path.endswith('/' + STAMP):
+            # which scanner version wrote the stamp this process is reading now (None: damaged)
+            st = self.fs.inodes.get(ino)
+            self.stamp_seen[slot] = (st.tag.get('sv') if st is not None and not st.tag.get('damaged') else None)
         if slot >= 0 and call == 'stat' and path == LIBDIR + '/' + self.libfiles[0]:
             # the one file a mid-run upgrade touches: what this process saw of it decides which
             # version hash it computes, i.e. which scanner version it takes itself to be
@@ -709,11 +714,7 @@ class CacheSim(object):
                'begin_idx': len(self.world.log), 'snap': None}
         if op[0] in ('construct', 'newstore'):
             rec['snap'] = self._cachedir_snapshot()
-            # which scanner version wrote the stamp this construct is about to read
-            rec['stamp_sv'] = {}
-            for d in self._candidate_cachedirs():
-                st = self.fs.lookup(d + '/' + STAMP)
-                rec['stamp_sv'][d] = st.tag.get('sv') if st is not None and not st.tag.get('damaged') else None
+            self.stamp_seen.pop(p.slot, None)      # set when (if) this constructor opens a stamp
         self.world.record(p.slot, 'OP>' + op[0], SOURCES.get(op[1]) if len(op) > 1 else None)
         self.ops.append(rec)
         return rec
@@ -850,7 +851,7 @@ class CacheSim(object):
                 used = used[0] if used else None
                 now = self._cachedir_snapshot(used) if used else {}
                 left = []
-                if used and rec.get('stamp_sv', {}).get(used) == p.version:
+                if used and self.stamp_seen.get(p.slot, 'none') == p.version:
                     # the stamp it found was written by its own version: no purge is owed. Entries
                     # that a scanner of another version, still running, stored after that purge
                     # may lie around; what matters is that they are never served (reader side)
